@@ -239,7 +239,7 @@ def gen_problem(name, n, rng, opts=None):
     elif name == "rankdef":
         r = max(0, n - 1 - int(rng.integers(0, max(1, n // 2))))  # rank < n
         Q = haar(rng, n)
-        lam = onp.concatenate([10.0 ** rng.uniform(-1, 1, r), onp.zeros(n - r)])
+        lam = onp.concatenate([10.0 ** rng.uniform(-1, 1, r), onp.zeros(n - r)]) * float(opts.get("scale", 1.0))
         A = (Q * lam) @ Q.T
         A = 0.5 * (A + A.T)
         b = rng.standard_normal(n)  # shift = location of the minimiser (Hessian there = A, singular)
